@@ -93,6 +93,13 @@ func genC13(t *rapid.T) C13Case {
 			}
 			c.Ops = append(c.Ops, C13Op{Op: "listen", Unix: rapid.IntRange(0, 3).Draw(t, "unix") == 0})
 		case 7:
+			if rapid.IntRange(0, 2).Draw(t, "relisten") == 0 {
+				fresh++
+				name := fmt.Sprintf("org.example.late%d", fresh)
+				c.Ops = append(c.Ops, C13Op{Op: "listen", Unix: true}, C13Op{Op: "relisten"}, C13Op{Op: "register", Name: name, Desc: "d"}, C13Op{Op: "query"})
+				names = append(names, name)
+				continue
+			}
 			c.Ops = append(c.Ops, C13Op{Op: "shutdown"})
 		default:
 			c.Ops = append(c.Ops, C13Op{Op: "query"})
@@ -342,7 +349,7 @@ func execC13(c C13Case, bound time.Duration) (facts map[string]int, err error) {
 			r.done = make(chan error, 1)
 			if op.Unix {
 				r.addr = fmt.Sprintf("unix:@verif-c13-%d-%d", os.Getpid(), atomic.AddInt64(&c13Counter, 1))
-				go func(addr string) { r.done <- svc.Listen(ctx, addr, 0) }(r.addr)
+				go func(addr string, d chan error) { d <- svc.Listen(ctx, addr, 0) }(r.addr, r.done)
 				// wait until it answers
 				conn, derr := r.dial(bound)
 				if derr != nil {
@@ -358,7 +365,7 @@ func execC13(c C13Case, bound time.Duration) (facts map[string]int, err error) {
 			} else {
 				r.fake = NewFakeListener()
 				svc.VerifSetListener(r.fake)
-				go func() { r.done <- svc.DoListen(ctx, 0) }()
+				go func(d chan error) { d <- svc.DoListen(ctx, 0) }(r.done)
 				dl := time.Now().Add(bound)
 				for !r.fake.Blocked() && time.Now().Before(dl) {
 					time.Sleep(50 * time.Microsecond)
@@ -369,6 +376,58 @@ func execC13(c C13Case, bound time.Duration) (facts map[string]int, err error) {
 			}
 			r.listening = true
 			facts["listen"]++
+		case "relisten":
+			// the serving call is shut down while one of its clients stays connected, the object is served again on a new
+			// address, and only then the old client leaves and the old call returns: the service is listening throughout
+			// the second cycle, whatever the first one's end does
+			if !r.listening || r.fake != nil {
+				continue
+			}
+			old, derr := r.dial(bound)
+			if derr != nil {
+				return facts, fmt.Errorf("%s%v", pre, derr)
+			}
+			cctx, ccancel := context.WithTimeout(context.Background(), bound)
+			gerr := old.GetInfo(cctx, nil, nil, nil, nil, nil)
+			ccancel()
+			if gerr != nil {
+				old.Close()
+				return facts, fmt.Errorf("%sGetInfo on a fresh connection failed: %v", pre, gerr)
+			}
+			svc.Shutdown()
+			for dl := time.Now().Add(bound / 2); time.Now().Before(dl); {
+				if l, _ := svc.GetListener(); l == nil {
+					break
+				}
+				time.Sleep(100 * time.Microsecond)
+			}
+			oldDone, oldCancel := r.done, r.cancel
+			ctx, cancel := context.WithCancel(context.Background())
+			r.cancel = cancel
+			r.done = make(chan error, 1)
+			r.addr = fmt.Sprintf("unix:@verif-c13-%d-%d", os.Getpid(), atomic.AddInt64(&c13Counter, 1))
+			go func(addr string, d chan error) { d <- svc.Listen(ctx, addr, 0) }(r.addr, r.done)
+			conn, derr2 := r.dial(bound)
+			if derr2 != nil {
+				old.Close()
+				return facts, fmt.Errorf("%sserving again while the previous call drains: %v", pre, derr2)
+			}
+			cctx, ccancel = context.WithTimeout(context.Background(), bound)
+			gerr = conn.GetInfo(cctx, nil, nil, nil, nil, nil)
+			ccancel()
+			conn.Close()
+			if gerr != nil {
+				old.Close()
+				return facts, fmt.Errorf("%sfirst GetInfo of the second cycle failed: %v", pre, gerr)
+			}
+			old.Close()
+			select {
+			case <-oldDone:
+			case <-time.After(bound):
+				return facts, fmt.Errorf("%sthe previous serving call did not return within %v after its last client left", pre, bound)
+			}
+			oldCancel()
+			facts["second-cycle-overlaps-first-drain"]++
 		case "shutdown":
 			if r.listening {
 				facts["shutdown"]++
